@@ -195,3 +195,79 @@ func (c cm) offsetBad(r rune) (int, bool) {
 }
 
 var Sink = []interface{}{applyGood, applyBad, depthGood, depthBad, fanoutBad, markerGood, markerBad, plainBad, cm.lookupGood, cm.lookupBad, cm.offsetGood, cm.offsetBad}
+
+// ---- delegation through a field of the receiver, and a work budget behind a pointer parameter ----
+
+type iter interface{ next() bool }
+
+type leaf struct{ n int }
+
+func (l *leaf) next() bool { l.n--; return l.n > 0 }
+
+// clean: base is assigned only while the wrapper is built (and with nil)
+type wrapGood struct{ base iter }
+
+func newWrapGood(b iter) *wrapGood { return &wrapGood{base: b} }
+
+func (w *wrapGood) next() bool {
+	if w.base != nil {
+		if w.base.next() {
+			return true
+		}
+		w.base = nil
+	}
+	return false
+}
+
+// seeded: base can be re-pointed after construction, possibly at the wrapper itself
+type wrapBad struct{ base iter }
+
+func (w *wrapBad) next() bool {
+	if w.base != nil {
+		return w.base.next()
+	}
+	return false
+}
+
+func (w *wrapBad) rebase(b iter) { w.base = b }
+
+type tree struct{ kids []int }
+
+// clean: one budget for all levels
+func walkGood(ts []tree, i, depth int, budget *int) {
+	if depth > 20 || i >= len(ts) {
+		return
+	}
+	for _, k := range ts[i].kids {
+		if *budget <= 0 {
+			return
+		}
+		*budget--
+		walkGood(ts, k, depth+1, budget)
+	}
+}
+
+// seeded: the budget is tested but never charged
+func walkBad(ts []tree, i, depth int, budget *int) {
+	if depth > 20 || i >= len(ts) {
+		return
+	}
+	for _, k := range ts[i].kids {
+		if *budget <= 0 {
+			return
+		}
+		walkBad(ts, k, depth+1, budget)
+	}
+}
+
+func useWraps(ts []tree) {
+	var it iter = newWrapGood(&leaf{3})
+	it.next()
+	wb := &wrapBad{}
+	wb.rebase(wb)
+	it = wb
+	it.next()
+	b := 100
+	walkGood(ts, 0, 0, &b)
+	walkBad(ts, 0, 0, &b)
+}
